@@ -386,6 +386,61 @@ def gen_mode_rgp(cwd):
         f.write(lib)
 
 
+def gen_mode_cut(cwd):
+    """lib.rs of the split-cutting scratch crate (C11): every line of code under test is cut out of the overlay's
+    real src/distributed/splits.rs on every run -- the three constants, `target_split_bytes`, the `Split` and
+    `RowGroup` struct definitions (String/PathBuf fields retyped to a zero-sized token: names are irrelevant to the
+    cutting arithmetic and heap strings are what kept the whole function out of reach), and the complete pass-2 block
+    of `enumerate_parquet`. Only the wrapper `fn pass2(table, inventory, total_bytes, nodes)` is mine: it supplies as
+    PARAMETERS what pass 1 computes from Parquet footers. If any piece cannot be found the check is inconclusive."""
+    real = os.path.join(OVERLAY, "src/distributed/splits.rs")
+    text = open(real).read()
+    consts = []
+    for name in ("MIN_SPLIT_BYTES", "MAX_SPLIT_BYTES", "SPLITS_PER_NODE"):
+        m = re.search(r"^(?:pub(?:\([a-z]+\))?\s+)?const\s+" + name + r"\s*:[^;]*;", text, re.M)
+        if not m:
+            raise Inconclusive(f"mode S:cut: cannot find const {name} in the real source")
+        consts.append(m.group(0) + "\n")
+    m = re.search(r"^pub fn target_split_bytes\s*\(", text, re.M)
+    if not m:
+        raise Inconclusive("mode S:cut: cannot find fn target_split_bytes in the real source")
+    b = text.find("{", m.end())
+    tsb = text[m.start():_balanced(text, b, "{", "}")] + "\n"
+
+    def retype(item):
+        item = re.sub(r"(?m)^\s*#\[[^\n]*\]\n", "", item)          # derives / serde attributes
+        item = re.sub(r"\b(String|PathBuf)\b", "Tok", item)
+        return "#[derive(Clone, Debug)]\n" + item.lstrip()
+    split_def = retype(_extract_item(text, r"^pub struct Split\s*\{"))
+    rg_def = retype(_extract_item(text, r"^\s*struct RowGroup<'a>\s*\{"))
+    ms = re.search(r"^[ \t]*let target = target_split_bytes\(", text, re.M)
+    me = re.search(r"^[ \t]*splits\.sort_by\(", text, re.M)
+    if not ms or not me or me.start() <= ms.start():
+        raise Inconclusive("mode S:cut: cannot delimit the pass-2 block of enumerate_parquet "
+                           "(`let target = target_split_bytes(` .. `splits.sort_by(`) in the real source")
+    fragment = text[ms.start():me.start()]
+    hm = re.search(r"^#\[cfg\(all\(kani, feature = \"verif_mode_s\"\)\)\]\s*\nmod __verif_c11cut\s*\{", text, re.M)
+    if not hm:
+        raise Inconclusive("mode S:cut: harness module __verif_c11cut was not appended to the overlay")
+    hb = text.find("{", hm.end() - 1)
+    harness = text[hm.start():_balanced(text, hb, "{", "}")] + "\n"
+    lib = ("#![allow(dead_code, unused_imports, unused_mut, unused_variables, unexpected_cfgs)]\n"
+           "pub mod distributed {\npub mod splits {\n"
+           "/// zero-sized stand-in for the String / PathBuf fields (table name, path, file name)\n"
+           "#[derive(Clone, Copy, Debug, PartialEq, Eq)]\npub struct Tok;\n"
+           "impl Tok { pub fn to_string(&self) -> Tok { Tok } }\n"
+           + open(os.path.join(VERIF, "modes", "cut", "src", "vec_shim.rs")).read()
+           + "".join(consts) + tsb + split_def + rg_def +
+           "/// WRAPPER (mine): pass 1's results are parameters; the body is the real pass-2 block, verbatim\n"
+           "pub fn pass2<'a>(table: &Tok, inventory: Vec<RowGroup<'a>>, total_bytes: u64, nodes: usize) -> (u64, Vec<Split>, Vec<RowGroup<'a>>) {\n"
+           + fragment +
+           "    (target, splits, inventory)\n}\n"
+           + harness + "}\n}\n")
+    os.makedirs(os.path.join(cwd, "src"), exist_ok=True)
+    with open(os.path.join(cwd, "src", "lib.rs"), "w") as f:
+        f.write(lib)
+
+
 # --------------------------------------------------------------------------
 # running kani
 # --------------------------------------------------------------------------
